@@ -13,7 +13,7 @@ import (
 // compared output.
 
 func lam(body node.Type) node.Type { return fn(body) }
-func str(s string) node.Type     { return node.String(s) }
+func str(s string) node.Type       { return node.String(s) }
 func forl(v string, it node.Type, body node.Type) node.Type {
 	return node.For{VarRefs: node.List{Elems: []node.Type{nm(v)}}, Iterators: node.List{Elems: []node.Type{it}}, Body: body}
 }
@@ -108,7 +108,7 @@ func VerifC02Loops() {
 	case 14: // a generator built from generators is abandoned by a return; loops follow in the same statement
 		zip3 := node.For{VarRefs: node.List{Elems: []node.Type{nm("a"), nm("b"), nm("c")}},
 			Iterators: node.List{Elems: []node.Type{call("fromto", ilit(0), ilit(3)), call("fromto", ilit(10), ilit(13)), call("fromto", ilit(20), ilit(23))}},
-			Body: asg("r", bin("+", nm("r"), node.List{Elems: []node.Type{node.List{Elems: []node.Type{nm("a"), nm("b"), nm("c")}}}}))}
+			Body:      asg("r", bin("+", nm("r"), node.List{Elems: []node.Type{node.List{Elems: []node.Type{nm("a"), nm("b"), nm("c")}}}}))}
 		p.steps("def", false, asg("firstof", fn(blk(forl("e", call("map", nm("inc"), lam(call("filt", nm("pos"), nm("two")))), ret(nm("e"))), forl("e", call("chain", nm("two"), nm("two")), ret(nm("e"))), ilit(-1)))))
 		p.Step(blk(asg("r", node.List{}), asg("f1", call("firstof")), forl("e", it, call("write", nm("e"))), zip3, zip3, node.List{Elems: []node.Type{nm("f1"), nm("r")}}), true, "zips-after-abandoned-composed-generator")
 	case 12: // a function that returns out of a loop after some rounds is called before a loop and
@@ -132,7 +132,7 @@ func VerifC02Loops() {
 			asg("gf", fn(blk(yld(call("find", ilit(1))), yld(call("find", nm("n"))), yld(call("find", ilit(9)))), "n")))
 		zip3 := node.For{VarRefs: node.List{Elems: []node.Type{nm("a"), nm("b"), nm("c")}},
 			Iterators: node.List{Elems: []node.Type{call("fromto", ilit(0), ilit(3)), call("fromto", ilit(10), ilit(13)), call("elems", node.List{Elems: []node.Type{lit(), lit(), lit()}})}},
-			Body: asg("r", bin("+", nm("r"), node.List{Elems: []node.Type{node.List{Elems: []node.Type{nm("a"), nm("b"), nm("c")}}}}))}
+			Body:      asg("r", bin("+", nm("r"), node.List{Elems: []node.Type{node.List{Elems: []node.Type{nm("a"), nm("b"), nm("c")}}}}))}
 		var first node.Type = forl("e", call("gf", ilit(2)), asg("r", bin("+", nm("r"), node.List{Elems: []node.Type{nm("e")}})))
 		if vrt.Bool("abandon-first") {
 			first = asg("ab", fn(blk(forl("e", call("gf", ilit(2)), ifs(bin("==", nm("e"), ilit(20)), ret(nm("e")))), ilit(0))))
